@@ -82,7 +82,10 @@ def main():
                  'to int/float/str/other); it is compared on every run with the running interpreter (pyfmt-oracle stream): fidelity is by '
                  f'correspondence with CPython {sys.version.split()[0]} (64-bit) only',
                  'the hypothesis PlainPercent is the model\'s plainPercent; it is compared with an independent regex reading of the domain (pyfmt-plain)',
-                 'the correspondence harness (canonicalisers in tools/checks/pyfmt_common.py, Driver/PyFmt.lean)'],
+                 'the correspondence harness (canonicalisers in tools/checks/pyfmt_common.py, Driver/PyFmt.lean)',
+                 'tie by translation + proof (first part): tools/translate/pyfmtconv2lean.py (over tools/translate/pytr core + objfn) is trusted; the kit Model/PyFmtPy.lean is shared by both '
+                 'sides; Conversion.__init__ and FormatString.add_argument regenerated from the current lib/strformat/python.py are PROVED equal to PyFmt.conversion / addArgument '
+                 '(Props/C12Tie.lean), and the parser with the regenerated constructor runs against CPython in the pyfmt-*-generated streams'],
         explanation=EXPLANATION)
 
 EXPLANATION = (
@@ -104,7 +107,12 @@ EXPLANATION = (
     'modelled) and of the hand-written model to the code (pyfmt-* streams). Finding fixed in /repo: 84eb507 (integer conversions with '
     'literal precision 2^31-3..2^31-1 were accepted; CPython raises OverflowError for them whatever the argument). OUTSTANDING: '
     'nothing of the design list is missing.  Also proved: outside_domain_cpython_rejects / accept_formats_needs_domain (outside the '
-    'domain the CPython 3.12 model formats nothing while the parser accepts e.g. %5% - the hypothesis is necessary).')
+    'domain the CPython 3.12 model formats nothing while the parser accepts e.g. %5% - the hypothesis is necessary). '
+    'TIE BY TRANSLATION, first part (Props/C12Tie.lean): Generated/PyFmtConv.lean is rewritten from the current lib/strformat/python.py on every run (Conversion.__init__, '
+    'FormatString.add_argument) and proved equal to PyFmt.conversion / addArgument for all parent states, all directives and both settings of the warn switch '
+    '(generated_conversion_eq_model, generated_add_argument_eq_model, generated_add_argument_raw); the parser with the regenerated constructor in the modelled loop is PyFmt.parse '
+    '(generated_parse_eq_model), and accept_formats, malformed_rejected, reject_reasons, error_own, accept_formats_canonical are restated about it (*_generated). The character scanner of '
+    'FormatString.__init__ (the while-loop over enumerate(s)) and the final grouping remain hand-modelled, tied by the pyfmt-* streams.')
 
 if __name__ == '__main__':
     common.main_wrapper(main)
